@@ -166,6 +166,9 @@ func zzStubCSpill(dir sliceio.Spiller, f frame.Frame) (int, error) {
 }
 
 func zzStubCClosingReaders(dir sliceio.Spiller) ([]sliceio.Reader, error) {
+	if len(zzCRuns) > 0 && zz.AnyBool("openSpillFails") {
+		return nil, zzErrIO
+	}
 	var rs []sliceio.Reader
 	for _, run := range zzCRuns {
 		ks := make([]zzKey, len(run[0]))
@@ -209,8 +212,11 @@ func zzCombinerHarness(batches int) {
 		zz.Reach("spilled twice")
 	}
 	r, err := c.Reader()
-	zz.Assert(err == nil, "reading the combiner back succeeds")
-	zz.Assert(zzCCleaned == 1, "temporary spill files are removed when the reader is created")
+	zz.Assert(zzCCleaned == 1, "temporary spill files are removed when the reader is created, also when opening them fails")
+	if err != nil {
+		zz.Reach("opening spill files failed")
+		return
+	}
 	var gk []zzKey
 	var gv []int64
 	for k := 0; k < 8; k++ {
